@@ -93,6 +93,8 @@ func (m *machine) registerEnvIntrinsics() {
 		return zero(fn.Signature.Results().At(0).Type())
 	}
 
+	m.registerDiskIntrinsics()
+
 	// peer.ID is a string type
 	peerT := "(github.com/libp2p/go-libp2p/core/peer.ID)."
 	in[peerT+"String"] = func(fr *frame, fn *ssa.Function, args []value) value { return args[0] }
@@ -121,6 +123,41 @@ func (m *machine) registerEnvIntrinsics() {
 	in["("+noopPkg+".Tracer).Start"] = func(fr *frame, fn *ssa.Function, args []value) value {
 		t := m.namedType(noopPkg, "Span")
 		return tuple{args[1], iface{t: t, v: zero(t)}}
+	}
+}
+
+// leveldb: the datastore handle is a fake pointer mapped to a vstub disk store.
+func (m *machine) registerDiskIntrinsics() {
+	in := m.intrinsics
+	ldb := "github.com/ipfs/go-ds-leveldb"
+	in[ldb+".NewDatastore"] = func(fr *frame, fn *ssa.Function, args []value) value {
+		open := m.lookupFunc(vstubPath, "DiskOpen")
+		if open == nil {
+			panic(engineError("vstub.DiskOpen missing"))
+		}
+		c := callSSA(fr.i, fr, 0, open, []value{args[0]}, nil)
+		cell := zero(fn.Signature.Results().At(0).Type().(*types.Pointer).Elem())
+		p := &cell
+		fr.i.handles[p] = iface{t: open.Signature.Results().At(0).Type(), v: c}
+		return tuple{p, iface{}}
+	}
+	for _, meth := range []string{"Get", "Put", "Has", "Delete", "Close", "Sync", "GetSize"} {
+		meth := meth
+		in["(*"+ldb+".Datastore)."+meth] = func(fr *frame, fn *ssa.Function, args []value) value {
+			h, ok := fr.i.handles[fr.ptr(args[0])]
+			if !ok {
+				panic(engineError("leveldb handle not opened through NewDatastore"))
+			}
+			r, ok := fr.i.callMethod(fr, h, meth, args[1:]...)
+			if !ok {
+				panic(engineError("vstub.Cache lacks method " + meth))
+			}
+			return r
+		}
+	}
+	in["os.RemoveAll"] = func(fr *frame, fn *ssa.Function, args []value) value {
+		rm := m.lookupFunc(vstubPath, "DiskRemoveAll")
+		return callSSA(fr.i, fr, 0, rm, []value{args[0]}, nil)
 	}
 }
 
